@@ -181,11 +181,8 @@ fn c11(seed: u64, thorough: bool) -> Scenario {
     }
     g.world.args.long_flags = g.rng.chance(1, 2);
     // level B: report paths must stay root-relative wherever the tool is started (only for
-    // worlds without scripts, whose paths are cwd-relative by design, and cwd-independent globs)
-    if !g.uses_lua()
-        && g.world.args.globs.iter().all(|x| x.starts_with("**"))
-        && g.rng.chance(1, 3)
-    {
+    // worlds without scripts, whose paths are cwd-relative by design)
+    if !g.uses_lua() && g.rng.chance(1, 3) {
         let dirs: Vec<String> = g
             .world
             .files
@@ -1081,8 +1078,8 @@ fn c15(seed: u64, thorough: bool) -> Scenario {
         .filter(|f| !matches!(f.diff, FileDiff::Deleted))
         .filter_map(|f| f.path.rsplit_once('/').map(|(d, _)| d.to_string()))
         .collect();
-    let cwd_independent = g.world.args.globs.iter().chain(g.world.args.ignore.iter()).all(|x| x.starts_with("**"));
-    if cwd_independent && !dirs.is_empty() && g.rng.chance(1, 2) {
+    // globs are matched against root-relative paths wherever the tool is started
+    if !dirs.is_empty() && g.rng.chance(1, 2) {
         let v: Vec<&String> = dirs.iter().collect();
         g.world.cwd = (*g.rng.pick(&v)).clone();
     }
@@ -1367,7 +1364,25 @@ fn c20(seed: u64, thorough: bool) -> Scenario {
     let mut prng = Rng::new(mix(seed, "pick"));
     let sub = *prng.pick(&["C11", "C11", "C13", "C14", "C15", "C18", "C19"]);
     let base = scenario(sub, mix(seed, "base"), thorough);
-    let (world, plan) = base.runs[0].clone();
+    let (mut world, plan) = base.runs[0].clone();
+    // an argument that spells out one file's root-relative path: what it selects must not depend on
+    // whether that path also happens to exist relative to the start directory (names with glob
+    // metacharacters are patterns wherever the tool is started)
+    if prng.chance(1, 4) && !world.files.is_empty() && !world.args.list {
+        let special: Vec<&FileSpec> =
+            world.files.iter().filter(|f| f.path.contains(['[', '{']) && !f.path.contains('\\')).collect();
+        let plain: Vec<&FileSpec> = world.files.iter().filter(|f| !f.path.contains('\\')).collect();
+        let pick = if !special.is_empty() && prng.chance(2, 3) {
+            Some(special[prng.below(special.len())].path.clone())
+        } else if !plain.is_empty() {
+            Some(plain[prng.below(plain.len())].path.clone())
+        } else {
+            None
+        };
+        if let Some(p) = pick {
+            world.args.globs.push(p);
+        }
+    }
     let k = if thorough { 16 } else { 6 };
     // "the directory inside the repository from which it is started" is nondeterminism too, for
     // rules that reference no external script and globs that do not depend on the cwd
@@ -1375,8 +1390,7 @@ fn c20(seed: u64, thorough: bool) -> Scenario {
     for f in &world.files {
         for_each_block(&f.blocks, &mut |b| uses_lua |= b.has("check-lua"));
     }
-    let cwd_free = !uses_lua
-        && world.args.globs.iter().chain(world.args.ignore.iter()).all(|g| g.starts_with("**"));
+    let cwd_free = !uses_lua;
     let mut dirs: Vec<String> = vec![String::new()];
     for f in &world.files {
         if matches!(f.diff, FileDiff::Deleted) {
